@@ -913,6 +913,10 @@ PROPS['C06'] = {'gen': gen_c06, 'monitors': [mon_c06]}
 # ----------------------------------------------------------------------------- C13
 
 GATE = 0x750000
+HPCB_ = 0x748000
+HCODE_ = 0x705000
+OLDPCB_ = 0x740000
+ISTK_ = 0x741000
 HANDLER = 0x704000
 UNMAPPED = [0x300000, 0x20000, 0x200040, 0x400004, 0x500004, 0x602000, 0x800000, 0x1000000, 0xfffffffc, 0x4ffffc]
 ROMADDR = [0x1000, 0x0, 0x1fffc, 0x8000]
@@ -1007,6 +1011,31 @@ def gen_c13(tier, seed):
             mem = exc_setup(r, []) + [(DATA, [r.randrange(256) for _ in range(0x140)])]
             ops = setup_ops(regs, mem, code + [0x70] * 4) + ['k:3e8', 'sx', 'gr', 'rw:700000', 'rw:700004', 'sx', 'gr', 'X:9']
             g.add(ops, 'fault-in-pop')
+    # a zero divisor together with a faulting second source: the operands are read in order, the bus fault comes first
+    for name in ('MODW3', 'MODH3', 'MODB3', 'DIVW3', 'DIVH3', 'DIVB3', 'MODW2', 'DIVW2'):
+        for _ in range(3 if tier == 'quick' else 30):
+            regs = rnd_regs(r, psw_of(r.choice(allflags()), ipl=15))
+            ob, rx = bad(False)
+            regs.update(rx)
+            regs[12] = STK
+            o = [r.choice([lit(0), immw(0)]), ob] + ([absa(DATA + 0x20)] if name.endswith('3') else [])
+            mem = exc_setup(r, []) + [(DATA, [r.randrange(256) for _ in range(0x140)])]
+            ops = setup_ops(regs, mem, ins(OP[name], *o) + [0x70] * 4) + ['k:3e8', 'sx', 'gr', 'rw:%x' % STK, 'rw:%x' % (STK + 4), 'sx', 'gr', 'X:0']
+            g.add(ops, 'zero-divisor-and-fault')
+    # an interrupt is accepted at the start of a step and the first instruction of its handler takes a bus fault in that
+    # same step: the exception frame must name the handler's instruction (compared with the model)
+    for _ in range(12 if tier == 'quick' else 200):
+        regs = rnd_regs(r, psw_of(r.choice(allflags()), ipl=r.choice([0, 5, 13])))
+        regs[13] = OLDPCB_; regs[14] = ISTK_; regs[12] = STK
+        ob, rx = bad(r.random() < 0.5)
+        hcode = r.choice([ins(OP['MOVW'], ob, reg(3)), ins(OP['TSTW'], ob), ins(OP['CLRW'], ob)])
+        hregs = rx
+        regs.update(hregs)
+        pcb = be((15 << 13), 4) + be(HCODE_, 4) + be(0x760000, 4) + [0] * 80
+        mem = exc_setup(r, []) + [(0x8c, be(HPCB_, 4) * 64), (HPCB_, pcb), (HCODE_, hcode + [0x30, 0xc8, 0x70, 0x70]),
+                                  (OLDPCB_, [0] * 0x60), (ISTK_ - 8, [0] * 0x30)]
+        ops = setup_ops(regs, mem, [0x70] * 8) + ['k:3e8', 'md:1', 'gi', 'sx', 'gr', 'rw:760000', 'rw:760004', 'sx', 'gr', 'sx', 'gr']
+        g.add(ops, 'interrupt-then-fault')
     # STREND / MOVBLW running into a hole or into ROM: the fault must be taken (not swallowed) and the registers must be
     # what the model says they are at the fault (compared with the model; not judged by the monitor)
     for _ in range(40 if tier == 'quick' else 800):
@@ -1288,6 +1317,11 @@ def gen_c18(tier, seed):
                 regs = rnd_regs(r, psw_of(r.choice(allflags())))
                 regs.update(s[2]); regs.update(d[2])
                 pair('same', ins(OP[base + sfx + '2'], s[1], d[1]), ins(OP[base + sfx + '3'], s[1], d[1], d[1]), regs, s[3] + d[3])
+                if _ < 3 and base not in ('DIV', 'MOD'):
+                    # an expanded type written on the destination of the two-operand form = on the second operand of the
+                    # three-operand form, whose third operand inherits it
+                    et = r.choice(list(ETYPE))
+                    pair('same', ins(OP[base + sfx + '2'], s[1], ex(et, d[1])), ins(OP[base + sfx + '3'], s[1], ex(et, d[1]), d[1]), regs, s[3] + d[3])
                 # unusual destinations: the PSW itself (the stored result and the condition codes land in the same register)
                 # and an unwritable address (the write faults: neither form may have touched the condition codes)
                 if _ < 2:
